@@ -149,6 +149,11 @@ def parse_expression(expr: str) -> ast.Expression:
         raise ExpressionError(f"Syntax error: {e.msg} at position {e.offset}")
     except UnsafeNodeError:
         raise
+    except (RecursionError, MemoryError, ValueError) as e:
+        # An absurdly long or deeply nested text overflows the parser (or this validator):
+        # that is an expression which cannot be used, not a crash of the caller. (ValueError:
+        # a NUL character in the text.)
+        raise ExpressionError(f"Expression cannot be parsed: {e!r}")
 
 
 # =============================================================================
